@@ -36,3 +36,21 @@ class TSub(T):
 
     def run(self):
         return _run(self)
+
+
+@labtech.task
+class T_:
+    """a type whose name ends with an underscore (cache keys are '<prefix><name>__<hash>')"""
+    f1: object
+
+    def run(self):
+        return _run(self)
+
+
+@labtech.task
+class T__V:
+    """a type whose name contains a double underscore"""
+    f1: object
+
+    def run(self):
+        return _run(self)
